@@ -72,8 +72,20 @@ def validate_struct_list_array_for_equal_lengths(array: pa.StructArray) -> None:
             first_list_array = list_array
             continue
         # compare offsets from the first list array with the current one
-        if not first_list_array.offsets.equals(list_array.offsets):
+        if first_list_array.offsets.equals(list_array.offsets):
+            continue
+        # The offsets may also differ by a constant only, when the list arrays are windows
+        # of different buffers: compare them relative to the first offset
+        if not _relative_offsets(first_list_array).equals(_relative_offsets(list_array)):
             raise ValueError("Offsets of all ListArrays must be the same")
+
+
+def _relative_offsets(list_array: pa.ListArray) -> pa.Array:
+    """List offsets counted from the first one, i.e. as if the values started at zero."""
+    offsets = list_array.offsets
+    if offsets[0].as_py() == 0:
+        return offsets
+    return pa.compute.subtract(offsets, offsets[0])
 
 
 def transpose_struct_list_type(t: pa.StructType) -> pa.ListType:
@@ -127,13 +139,14 @@ def transpose_struct_list_array(array: pa.StructArray, validate: bool = True) ->
     if validate:
         validate_struct_list_array_for_equal_lengths(array)
 
-    # Since we know that all lists have the same length, we can use the first list to get offsets
-    offsets = array.field(0).offsets
-    # The value buffers of the fields may have different lengths (e.g. a field which is a slice of
-    # a larger array), while StructArray requires equal lengths: cut them at the last offset.
+    # Since we know that all lists have the same length, we can use the first list to get offsets.
+    # The fields may be windows of different value buffers (with different first offsets), so
+    # we take the window of each of them and count the offsets from zero.
+    first_list_array = array.field(0)
+    offsets = _relative_offsets(first_list_array)
     values_length = offsets[-1].as_py()
     struct_flat_array = pa.StructArray.from_arrays(
-        [field.values.slice(0, values_length) for field in array.flatten()],
+        [field.values.slice(field.offsets[0].as_py(), values_length) for field in array.flatten()],
         names=array.type.names,
     )
     return pa.ListArray.from_arrays(offsets, struct_flat_array)
